@@ -311,6 +311,40 @@ def jobs_C19(tier):
     return j
 
 
+def order(variant, prec, family, n, grid, slices=1, extra=()):
+    return [{'engine': 'mcorder/mcorder.c', 'variant': variant, 'prec': prec,
+             'args': ['--prop', 'C10', '--family', family, '--n', str(n), '--grid', grid, '--slice', '%d/%d' % (i, slices)] + list(extra)}
+            for i in range(slices)]
+
+
+def jobs_C10(tier):
+    j = []
+    for p in 'sdcz':
+        for n in (1, 2, 3):
+            j += order('q', p, 'sq', n, 'full')
+        for n in (2, 3, 4):
+            j += order('q', p, 'rect', n, 'full')
+    if tier == 'quick':
+        j += order('q', 'd', 'sq', 4, 'quick', slices=NS)
+    else:
+        for p in 'sdcz':
+            j += order('q', p, 'sq', 4, 'full', slices=NS)
+        j += order('q', 'd', 'sqdiag', 5, 'quick', slices=NS)
+        j += order('ql', 'd', 'sq', 4, 'quick', slices=NS)
+    return j
+
+
+def jobs_C20(tier):
+    j = []
+    grid = 'quick' if tier == 'quick' else 'full'
+    for p in 'sdcz':
+        for rd in ('hb', 'rb', 'mt'):
+            for i in range(NS):
+                j.append({'engine': 'mcread/mcread.c', 'variant': 'q', 'prec': p,
+                          'args': ['--prop', 'C20', '--reader', rd, '--grid', grid, '--slice', '%d/%d' % (i, NS)]})
+    return j
+
+
 RULE_X = ('exhaustive enumeration: every structurally nonsingular 0/1 pattern of the stated size with generic values x 6 scalings (none, rows, columns, both by powers of two, '
           'uniformly huge, uniformly tiny: they force every equed outcome) x trans {N,T,C} x storage {NC,NR} x fact {DOFACT, EQUILIBRATE, FACTORED after DOFACT, FACTORED after EQUILIBRATE} '
           'x nrhs x leading dimensions (tight and padded, ldb != ldx) x thresholds x threads, plus a graded family n=4..6 with prescribed singular values (one decade apart up to 1e13 / 1e4); '
@@ -393,6 +427,20 @@ SPECS = {
             'assumptions': ['values: one generic and one small-integer table', 'quick tier: an input class in which the library has killed the process 3 times per job is not executed further (counted); the thorough tier executes every case',
                             'triangular solves are judged by the componentwise backward-error bound gamma(n+2)|T||x| with L,U as stored', 'NCP (permuted view) inputs to sp_?gemv are outside the statement and switched off (--ncp 0)'],
             'deadline': {'quick': 300, 'thorough': 3600}},
+    'C10': {'jobs': jobs_C10, 'level': 'exploration',
+            'rule': 'exhaustive enumeration: every 0/1 pattern m x n, m,n <= 4 (all bit masks; thorough: also every full-diagonal 5x5 pattern) x get_perm_c option 0..3 x SymmetricMode NO/YES x every one of the n! caller orderings (quick: on every 17th 4x4 pattern); '
+                    'a case is one call of get_perm_c / sp_coletree / sp_colorder judged against a brute-force symbolic-Cholesky reference; distinct_outcomes counts distinct (pattern, stage, input order, output order, etree, partition, counts)',
+            'assumptions': ['column counts are judged only where their derivation applies (symmetric mode, or zero-free diagonal of A*Pc)', 'sp_colorder is only called on square matrices (qrnzcnt indexes n-sized arrays by row number)',
+                            'the sampled part of the quantifier (n ~ 300) is not part of this technique'],
+            'deadline': {'quick': 300, 'thorough': 3600}},
+    'C20': {'jobs': jobs_C20, 'level': 'exploration',
+            'rule': 'exhaustive enumeration: all 673 matrices with m,n <= 3 x a union of complete layout families (integer descriptors: all widths/repeat counts/case; real descriptors E/D/F, 1P, exponent letter, widths 12..25; header variants: trap titles incl. 80 columns and digits in columns 15-16, RHS header line + block, RUA/RSA type codes) written by an independent writer and fed to ?readhb / ?readrb / ?readmt through stdin; oracle: dimensions, nnz and the set of (row, col, value) with the value bit-identical to the correctly rounded printed decimal; distinct (file text, returned arrays) pairs',
+            'assumptions': ['files whose trailing blanks were trimmed are executed but not judged (whether such card images are "well-formed" is not settled by the statement): ignore_sigs *trim*',
+                            '?readmt is the third text format of the library (1-based, per-column counts); the library has no coordinate/triplet reader, so that clause of the statement cannot be exercised',
+                            'single precision: a value that is the printed decimal rounded to double and then to float (1 ulp from the correctly rounded float in rare cases) is accepted (ignore_sigs double-rounding)',
+                            'writer self-check at start-up: the sample files of /repo/EXAMPLE are reproduced byte for byte and read identically'],
+            'ignore_sigs': [r'trim', r'title72', r'titleblank', r'titleparen', r'double-rounding'],
+            'deadline': {'quick': 300, 'thorough': 1800}},
     'C09': {'jobs': jobs_C09, 'level': 'exploration', 'rule': RULE_SEQ,
             'assumptions': ['checker wellformed() implements the statement literally; n <= 12'],
             'deadline': {'quick': 600, 'thorough': 3 * 3600}},
@@ -410,7 +458,7 @@ def evidence(prop, tier, seed, spec, stats, samples, per_job, complete, wall, n_
     cov['rule'] = spec['rule']
     cov['samples'] = samples if samples else ['(no sample emitted)']
     cov['exhaustive'] = bool(complete)
-    for k in ('judged', 'skipped', 'matrices', 'matrices_total', 'matrices_outside_hypothesis', 'info0', 'singular_reports', 'deaths',
+    for k in ('jobs_cut_by_deadline', 'judged', 'skipped', 'matrices', 'matrices_total', 'matrices_outside_hypothesis', 'info0', 'singular_reports', 'deaths',
               'executions', 'choice_points', 'pruned', 'schedules', 'max_preemptions_completed', 'histories', 'faults', 'edges_replayed'):
         if k in stats:
             cov[k] = int(stats[k])
